@@ -102,7 +102,12 @@ def prop(case, rec):
     cands += sample
     for s in list(dict.fromkeys(pws))[:12] + sample[:8]:
         cands += perturb(s)
-    cands += case.get('extra', []) + pwgen.EMAILISH + pwgen.WEBISH + ['', ' ', 'zzzzzz', '9999', '!!!!', 'Zq#1', 'abc def']
+    odd = [c for k in ('case_odd', 'U0130') for c in pwgen.SPECIAL[k] if len(c) == 1] + ['\u01c8', '\u01cb', '\u01f2', '\u2126', '\u212b']
+    for s in list(dict.fromkeys(pws))[:6]:
+        for c in odd:
+            # letters whose case mapping is not one-to-one, in place of / next to ordinary letters
+            cands += [c + s[1:], s[:1] + c + s[2:], s + c]
+    cands += case.get('extra', []) + pwgen.EMAILISH + pwgen.WEBISH + ['', ' ', 'zzzzzz', '9999', '!!!!', 'Zq#1', 'abc def'] + odd
     cands = [c for c in dict.fromkeys(cands) if isinstance(c, str)]
     first = {}
     for s in cands:
@@ -166,8 +171,8 @@ def run_main(rec, seed, shard, nshards, tier):
     core.hyp_run(rec, prop, cases(), n, seed)
 
 
-F13_CASE = {'entries': [['Kpassword', 3], ['password1', 6], ['Monkey12', 5], ['iloveyou', 5], ['K', 2]], 'encoding': 'utf-8', 'coverage': 0.6, 'ngram': 3,
-            'extra': ['\u212a', '\u212apassword', '\u03f4', 'Monkey12']}
+F13_CASE = {'entries': [['Kpassword', 3], ['password1', 6], ['Monkey12', 5], ['iloveyou', 5], ['K', 2], ['\u01c6emal1', 3]], 'encoding': 'utf-8',
+            'coverage': 0.6, 'ngram': 3, 'extra': ['\u212a', '\u212apassword', '\u03f4', 'Monkey12', '\u01c5emal1', '\u01c4emal1', '\u01c6emal1']}
 
 
 def run_probe(rec, seed, shard, nshards, tier):
